@@ -385,6 +385,7 @@ CHECKS = {
             {"name": "stall", "test": "TestStall", "quick": 300, "thorough": 4000, "shards": 16},
             {"name": "all-k", "test": "TestAllK", "quick": None, "thorough": None, "shards": 16, "enum": True},
             {"name": "callbacks-rt", "test": "TestCallbacks", "quick": 60, "thorough": 600, "shards": 8},
+            {"name": "rpc-forced-order", "test": "TestForced", "quick": 24, "thorough": 300, "shards": 8},
         ],
     },
     "C06": {
